@@ -77,6 +77,9 @@ func cmdCheck(args []string) int {
 		writeEv()
 		return 1
 	}
+	if !*updateClaims {
+		litBaseline = loadLits(*verif)
+	}
 	eng, err := loadEngine(*repo)
 	if err != nil {
 		return toolFailure(err.Error())
@@ -135,6 +138,11 @@ func cmdCheck(args []string) int {
 	if id == "C08" {
 		var bo []*Obligation
 		bo, boundedInfo = eng.runBounded(modTextHarness, *repo, *verif, *tier, seed)
+		extraObls = append(extraObls, bo...)
+	}
+	if id == "C16" {
+		var bo []*Obligation
+		bo, boundedInfo = eng.runBounded(originHarness, *repo, *verif, *tier, seed)
 		extraObls = append(extraObls, bo...)
 	}
 	if id == "C01" {
@@ -224,6 +232,18 @@ func cmdCheck(args []string) int {
 			}
 		}
 		saveLoops(*verif, lo)
+		li := loadLits(*verif)
+		for _, k := range order {
+			if own[k] {
+				if i := strings.Index(k, "$"); i > 0 {
+					parent := k[:i]
+					if f, ok := eng.litFPs[parent]; ok {
+						li[parent] = f
+					}
+				}
+			}
+		}
+		saveLits(*verif, li)
 		var names []string
 		// only obligations of functions that carry the property themselves are claimed: a callee
 		// that merely drops out of the dependency closure after a harmless edit is not an alarm
@@ -420,6 +440,19 @@ func cmdCheck(args []string) int {
 		ev.Coverage["bounded_obligations"] = nb
 		ev.Level = "other"
 		ev.Coverage["explanation"] = "two parts: (1) proof: the library steps the commands are built from (Minimize, Invert*, BySegment, Segment, Delete/Erase/Insert/Embed/Rotate/Slice) are under contract and discharged by SMT for all inputs; (2) BOUNDED, not proved: the per-record loops of the six commands are run through the gts binary built from the current tree on every site configuration within the bound stated in /verif/bounded/cli_bounded_test.go, and the residues written are compared with what the property prescribes; obligations named main.commands/bounded:* are outcomes of that enumeration."
+	}
+	if id == "C16" {
+		for k, v := range boundedInfo {
+			ev.Coverage[k] = v
+		}
+		nb := 0
+		for _, o := range all {
+			if o.Kind == "bounded" {
+				nb++
+			}
+		}
+		ev.Coverage["bounded_obligations"] = nb
+		ev.Coverage["explanation"] = "layout arithmetic, NewOrigin, Origin.Bytes/Len/String, the round-trip lemma, and soundness of both readers (whatever the fast validator or the line-by-line path accepts is a layout block of the declared length) are proved by SMT for all lengths; ONE clause of the property is BOUNDED, not proved: that the line-by-line path accepts every block the fast path accepts (completeness) - its lines come from pars.Line, whose tokens are unconstrained in the model, so the real ORIGIN field reader is run on every block within the bound of /verif/bounded/origin_bounded_test.go (obligations seqio.makeGenbankOriginParser/bounded:*)."
 	}
 	if id == "C01" {
 		for k, v := range boundedInfo {
